@@ -1217,3 +1217,111 @@ func FuzzReadTorrent(f *testing.F) {
 		stats.Case("fuzz", false)
 	})
 }
+
+// magnetCandidates is the independent reading of a magnet link: the values of
+// its xt parameters after "urn:btih:" (and the string itself, which may be a
+// bare hash), each decoded as 40 hex digits or 32 base-32 characters.
+func magnetCandidates(s string) [][]byte {
+	var texts []string
+	texts = append(texts, s)
+	if i := strings.IndexByte(s, '?'); i >= 0 && len(s) >= 7 && strings.EqualFold(s[:7], "magnet:") {
+		q := s[i+1:]
+		if j := strings.IndexByte(q, '#'); j >= 0 {
+			q = q[:j]
+		}
+		for _, kv := range strings.FieldsFunc(q, func(r rune) bool { return r == '&' || r == ';' }) {
+			k, v, _ := strings.Cut(kv, "=")
+			ku, e1 := nurl.QueryUnescape(k)
+			vu, e2 := nurl.QueryUnescape(v)
+			if e1 != nil || e2 != nil || ku != "xt" {
+				continue
+			}
+			if rest, ok := strings.CutPrefix(vu, "urn:btih:"); ok {
+				texts = append(texts, rest)
+			}
+		}
+	}
+	var out [][]byte
+	for _, c := range texts {
+		if h, err := hex.DecodeString(c); err == nil && len(h) == 20 {
+			out = append(out, h)
+		}
+		flat := strings.NewReplacer("\n", "", "\r", "").Replace(c) // base-32 decoding skips line breaks
+		if h, err := base32.StdEncoding.DecodeString(flat); err == nil && len(h) == 20 {
+			out = append(out, h)
+		}
+	}
+	return out
+}
+
+func magnetHasKey(s, key string) bool {
+	_, q, _ := strings.Cut(s, "?")
+	for _, kv := range strings.FieldsFunc(q, func(r rune) bool { return r == '&' || r == ';' || r == '#' }) {
+		k, _, _ := strings.Cut(kv, "=")
+		if ku, err := nurl.QueryUnescape(k); err == nil && ku == key {
+			return true
+		}
+	}
+	return false
+}
+
+func FuzzReadMagnet(f *testing.F) {
+	hx := strings.Repeat("ab", 20)
+	b32 := base32.StdEncoding.EncodeToString(gen.Fill(3, 20))
+	f.Add(hx)
+	f.Add(b32)
+	f.Add("magnet:?xt=urn:btih:" + hx)
+	f.Add("magnet:?xt=urn:btih:" + b32 + "&dn=a+b&tr=http%3A%2F%2Ft%2Fa&ws=http%3A%2F%2Fw%2F&as=http://x/")
+	f.Add("magnet:?xt=urn:sha1:AB&xt=urn:btih:short&xt=urn:btih:" + strings.ToUpper(hx) + "&x.pe=1.2.3.4:5")
+	f.Add("MAGNET:?xt=urn:btih:" + hx)
+	f.Add("magnet:?xt=urn:btih:%61%62" + hx[4:])
+	f.Add("magnet:?xt=urn:btih:" + b32[:16] + "%0A" + b32[16:])
+	f.Add("magnet:?dn=%zz&xt=urn:btih:" + hx)
+	f.Add("http://example.com/?xt=urn:btih:" + hx)
+	f.Fuzz(func(t *testing.T, s string) {
+		if len(s) > 64<<10 {
+			return
+		}
+		var tt *tor.Torrent
+		var err error
+		var pv any
+		func() {
+			defer func() { pv = recover() }()
+			tt, err = tor.ReadMagnet("", s)
+		}()
+		if pv != nil {
+			t.Fatalf("ReadMagnet(%q) panicked: %v", s, pv)
+		}
+		if err != nil && tt != nil {
+			t.Fatalf("ReadMagnet(%q) returned both a torrent and an error", s)
+		}
+		if tt != nil {
+			if len(tt.Hash) != 20 {
+				t.Fatalf("ReadMagnet(%q) returned a torrent with a %d-byte hash", s, len(tt.Hash))
+			}
+			ok := false
+			for _, c := range magnetCandidates(s) {
+				ok = ok || bytes.Equal(c, tt.Hash)
+			}
+			if !ok {
+				t.Fatalf("ReadMagnet(%q): info-hash %s is not what any xt=urn:btih: value (or the string itself) spells", s, hex.EncodeToString(tt.Hash))
+			}
+			if tt.InfoComplete() {
+				t.Fatalf("ReadMagnet(%q): magnet torrent claims complete metadata", s)
+			}
+			for _, tier := range tt.Trackers() {
+				for _, tr := range tier {
+					if !magnetHasKey(s, "tr") {
+						t.Fatalf("ReadMagnet(%q): tracker %q from a link without tr=", s, tr.URL())
+					}
+				}
+			}
+			for _, w := range webseedURLs(tt) {
+				if !magnetHasKey(s, "ws") && !magnetHasKey(s, "as") {
+					t.Fatalf("ReadMagnet(%q): web seed %q from a link without ws= / as=", s, w)
+				}
+			}
+		}
+		stats.Case("fuzz-magnet", false)
+	})
+}
